@@ -25,10 +25,12 @@ import (
 	"crypto/ecdsa"
 	"encoding/hex"
 	"fmt"
+	"os"
 	"reflect"
 	"sort"
 	"strconv"
 	"strings"
+	"unicode/utf8"
 
 	"github.com/golang/protobuf/proto"
 
@@ -120,7 +122,6 @@ func splitOr(s, sep string) []string {
 	}
 	return strings.Split(s, sep)
 }
-
 
 // sigOut prints a signature: symbolic placeholders as their token.  In a mutant, a signature inherited from the
 // base (".M" = made over the base's digest) is printed ".B"; one made for the mutant itself is marked ".N" -> ".M".
@@ -505,6 +506,45 @@ func execK1(w []string, oracle bool) string {
 	return "distinct"
 }
 
+// dm3 <specA> <specB> cls=<class>: two version-3 transactions that differ in one field.
+func execDm3(w []string, oracle bool) string {
+	if len(w) < 3 {
+		return "bad-op"
+	}
+	a, b := parseSpec(w[1]), parseSpec(w[2])
+	da, e1 := txhash.MakeTxDigestHash(a)
+	db, e2 := txhash.MakeTxDigestHash(b)
+	ia, e3 := txhash.MakeTransactionID(a)
+	ib, e4 := txhash.MakeTransactionID(b)
+	if e1 != nil || e2 != nil || e3 != nil || e4 != nil {
+		return "error"
+	}
+	dd, ii := "distinct", "distinct"
+	if bytes.Equal(da, db) {
+		dd = "collide"
+	}
+	if bytes.Equal(ia, ib) {
+		ii = "collide"
+	}
+	cls := ""
+	for _, t := range w[3:] {
+		if strings.HasPrefix(t, "cls=") {
+			cls = t[4:]
+		}
+	}
+	if oracle {
+		inSigs := strings.HasPrefix(cls, "InitiatorSigns") || strings.HasPrefix(cls, "AuthRequireSigns") || strings.HasPrefix(cls, "XuperSign") ||
+			strings.HasPrefix(cls, "list:InitiatorSigns") || strings.HasPrefix(cls, "list:AuthRequireSigns") || strings.HasPrefix(cls, "sigarea:") || strings.HasPrefix(cls, "signature:")
+		if ii == "collide" {
+			out.Violate(xvlib.Violation{Key: "txid-v3-collision:" + cls, What: "two version-3 transactions that differ in one field (" + cls + ") have the same txid", Ops: []string{strings.Join(w, " ")}, Impl: []string{"id=collide"}})
+		}
+		if dd == "collide" && !inSigs {
+			out.Violate(xvlib.Violation{Key: "txdigest-v3-collision:" + cls, What: "two version-3 transactions that differ in one field outside the signatures (" + cls + ") have the same signing digest: a signature over one verifies for the other", Ops: []string{strings.Join(w, " ")}, Impl: []string{"digest=collide"}})
+		}
+	}
+	return "digest=" + dd + " id=" + ii
+}
+
 // ---------------------------------------------------------------- vt
 
 func execVt(line string, oracle bool) (string, int32) {
@@ -554,6 +594,8 @@ func execC07(line string, oracle bool) string {
 	switch w[0] {
 	case "d3", "i3", "d1":
 		return execDigest(w[0], parseSpec(w[1]))
+	case "dm3":
+		return execDm3(w, oracle)
 	case "k1":
 		return execK1(w, oracle)
 	case "vc":
@@ -665,7 +707,9 @@ func randTx(r *xvlib.Rng, ver int32) *pb.Transaction {
 
 // base forms, as specs with symbolic signers
 func baseSpecs(ver int) map[string]string {
-	in := func(owner string, i int) string { return fmt.Sprintf("%s/%d/%s/64/0", hex.EncodeToString(sha("xv-ref"+strconv.Itoa(i))), i, owner) }
+	in := func(owner string, i int) string {
+		return fmt.Sprintf("%s/%d/%s/64/0", hex.EncodeToString(sha("xv-ref"+strconv.Itoa(i))), i, owner)
+	}
 	common := func(ins []string, init, auth, isig, asig, xs string) string {
 		hd := "hd=0;hdpk=-;hdoh=-"
 		if ver >= 2 {
@@ -676,9 +720,9 @@ func baseSpecs(ver int) map[string]string {
 	}
 	noX := "xs=0;xpk=~;xsg=-"
 	return map[string]string{
-		"ak":      common([]string{in("A0", 0), in("A0", 1)}, "A0", "~", "K0/S0.M", "~", noX),
+		"ak": common([]string{in("A0", 0), in("A0", 1)}, "A0", "~", "K0/S0.M", "~", noX),
 		// the initiator owns nothing and A2 is a pure co-signer: editing the signer list is not masked by the owner check
-		"cosign": common([]string{in("A1", 0), in("A1", 1)}, "A0", "A1,A2", "K0/S0.M", "K1/S1.M,K2/S2.M", noX),
+		"cosign":  common([]string{in("A1", 0), in("A1", 1)}, "A0", "A1,A2", "K0/S0.M", "K1/S1.M,K2/S2.M", noX),
 		"multi":   common([]string{in("A0", 0), in("A1", 1), in("A2", 2)}, "A0", "A1,A2", "K0/S0.M", "K1/S1.M,K2/S2.M", noX),
 		"account": common([]string{in("C1", 0), in("A0", 1)}, "A0", "C1|A1", "K0/S0.M", "K1/S1.M", noX),
 		"acctini": common([]string{in("C1", 0)}, "C1", "C1|A1", "K1/S1.M", "K1/S1.M", noX),
@@ -714,8 +758,19 @@ func schemaMutants(tx *pb.Transaction, form string) []txMutant {
 	var res []txMutant
 	emit := func(cls string, f func(t *pb.Transaction)) {
 		t := proto.Clone(tx).(*pb.Transaction)
-		f(t)
-		res = append(res, txMutant{cls, t})
+		applied := func() (ok bool) {
+			// some mutators assume the symbolic signatures of the base forms: on a random transaction they do not apply
+			defer func() {
+				if recover() != nil {
+					ok = false
+				}
+			}()
+			f(t)
+			return true
+		}()
+		if applied {
+			res = append(res, txMutant{cls, t})
+		}
 	}
 	excluded := map[string]bool{"Blockid": true, "ReceivedTimestamp": true}
 	for _, path := range schemas.TxFields {
@@ -777,6 +832,41 @@ func schemaMutants(tx *pb.Transaction, form string) []txMutant {
 					}
 					l.SetMapIndex(reflect.ValueOf("zz"), reflect.ValueOf([]byte{1}))
 				})
+				// entries with an EMPTY value: adding one, renaming one, emptying one must each change digest and id
+				emit(cls+":add-empty-valued-key", func(t *pb.Transaction) {
+					l := leaf(t)
+					if l.IsNil() {
+						l.Set(reflect.MakeMap(l.Type()))
+					}
+					l.SetMapIndex(reflect.ValueOf("ze"), reflect.ValueOf([]byte{}))
+				})
+				emit(cls+":rename-empty-valued-key", func(t *pb.Transaction) {
+					l := leaf(t)
+					if l.IsNil() {
+						l.Set(reflect.MakeMap(l.Type()))
+					}
+					// the base carries the empty-valued entry "ek" (see below); it is renamed
+					if v := l.MapIndex(reflect.ValueOf("ek")); v.IsValid() {
+						l.SetMapIndex(reflect.ValueOf("ek"), reflect.Value{})
+						l.SetMapIndex(reflect.ValueOf("el"), v)
+					} else {
+						l.SetMapIndex(reflect.ValueOf("el"), reflect.ValueOf([]byte{}))
+					}
+				})
+				if l := leaf(tx); !l.IsNil() && l.Len() > 0 {
+					emit(cls+":empty-a-value", func(t *pb.Transaction) {
+						l := leaf(t)
+						ks := l.MapKeys()
+						sort.Slice(ks, func(i, j int) bool { return ks[i].String() < ks[j].String() })
+						for _, k := range ks {
+							if l.MapIndex(k).Len() > 0 {
+								l.SetMapIndex(k, reflect.ValueOf([]byte{}))
+								return
+							}
+						}
+						l.SetMapIndex(ks[0], reflect.ValueOf([]byte{9}))
+					})
+				}
 			}
 		}
 	}
@@ -1042,6 +1132,45 @@ func genC07(tier string, rng *xvlib.Rng, run func(string, bool)) {
 			out.Sample(map[string]string{"op": "d3 " + s, "impl": execC07("d3 "+s, false)})
 		}
 		run("d1 "+specOf(randTx(rng, int32(1+rng.Intn(2)))), true)
+		// pairs: every single-field mutant of a random version-3 transaction (contract requests with arguments,
+		// empty-valued ones included) must differ from it in the digest (fields outside the signatures) and in the id
+		if i%6 == 0 && tx.Version >= 3 {
+			if len(tx.ContractRequests) > 0 && rng.Bool() {
+				q := tx.ContractRequests[0]
+				if q.Args == nil {
+					q.Args = map[string][]byte{}
+				}
+				q.Args["ek"] = []byte{}
+				s = specOf(tx)
+			}
+			ms0 := schemaMutants(tx, "random")
+			if os.Getenv("XV_DEBUG") != "" {
+				fmt.Fprintf(os.Stderr, "dm3: tx %d has %d mutants\n", i, len(ms0))
+			}
+			for _, m := range ms0 {
+				if strings.HasPrefix(m.cls, "obs:") || strings.HasPrefix(m.cls, "signature:") || strings.HasPrefix(m.cls, "signer-list:") ||
+					m.cls == "XuperSign:add-empty" || m.cls == "HDInfo:presence" {
+					// observations; mutators that assume the symbolic signatures of the base forms; presence of a
+					// sub-message WITHOUT content (not hashed, judged by what VerifyTx does with it: vt lines)
+					continue
+				}
+				ms := specOf(m.tx)
+				if !utf8.ValidString(ms) {
+					continue
+				}
+				// an absent sub-message and a present one without content are the same transaction on the wire
+				// (Marshal refuses strings that are not UTF-8: then nothing is known, the pair is kept)
+				if wa, ea := proto.Marshal(tx); ea == nil {
+					if wb, eb := proto.Marshal(m.tx); eb == nil && bytes.Equal(wa, wb) {
+						continue
+					}
+				}
+				if ms == s {
+					continue
+				}
+				run("dm3 "+s+" "+ms+" cls="+m.cls, true)
+			}
+		}
 	}
 	// 2. the v1/v2 collision (known finding) and its v3 control
 	for _, v := range []int{1, 2, 3} {
